@@ -20,7 +20,7 @@ PROFILES = {
     # property -> (world constraints, weight overrides, options)
     "C01": dict(world={}, w={"primitive": 5, "enable": 0.2, "disable": 0.1}, reinvert=0.6, steps=(8, 60)),
     "C02": dict(world={}, w={"undo": 6, "redo": 4, "enable": 0.1, "disable": 0.05}, steps=(10, 80), bursty=True),
-    "C03": dict(world={"p_seg": 0.3}, w={"add_edge": 7, "add_node": 4, "paint": 2, "enable": 0, "disable": 0}, steps=(10, 60), wild_edges=True),
+    "C03": dict(world={"p_seg": 0.3}, w={"add_edge": 7, "add_node": 4, "paint": 2, "undo": 4, "redo": 2.5, "enable": 0, "disable": 0}, steps=(10, 60), wild_edges=True, bursty=True),
     "C04": dict(world={"p_seg": 0.3}, w={"enable": 0.05, "disable": 0.02, "restart": 0.2}, steps=(10, 60)),
     "C05": dict(world={"p_seg": 0.3}, w={"add_edge": 5, "delete_edge": 4, "delete_node": 4, "enable": 0.05, "disable": 0.02, "restart": 0.2}, steps=(10, 60), division_bias=True),
     "C06": dict(world={"p_seg": 0.3}, w={"issue_ids": 1, "delete_node": 3, "enable": 0.05, "disable": 0.02, "restart": 0.2}, steps=(10, 60), explicit_tracks=True),
@@ -59,6 +59,7 @@ def swarm(rng: random.Random, prop: str, tier: str) -> dict:
         "flags": {k: True for k in ("bursty", "wild_edges", "division_bias", "explicit_tracks", "iou_toggle", "toggle_ids", "trap", "io", "subs") if p.get(k)},
         "subset": p.get("subset", 0.5),
         "f2": rng.choice([0.0, 0.0, 0.6]) if p.get("io") else 0.0,
+        "sweep": 0.15 if (p.get("io") and tier == "thorough") else 0.0,
     }
     return cfg
 
@@ -143,7 +144,7 @@ def gen_op(rng: random.Random, cfg: dict, kind: str | None = None) -> dict:
         key = rng.choice(["score", "score", "@pos"])
         if inval or (fl.get("toggle_ids") and rng.random() < 0.4):
             key = rng.choice(["@time", "@managed", "@managed"])
-        op.update(n=_sel(rng, ["any"]), key=key, val=round(rng.random(), 3), k=rng.randrange(16), multi=rng.random() < 0.2, reinvert=reinv)
+        op.update(n=_sel(rng, ["any"]), key=key, val=rng.choice([0.0, round(rng.random(), 3), round(rng.random(), 3)]), k=rng.randrange(16), multi=rng.random() < 0.2, reinvert=reinv)
         if inval and rng.random() < 0.3:
             op["invalid"] = "unknown"
     elif kind == "paint":
@@ -154,6 +155,8 @@ def gen_op(rng: random.Random, cfg: dict, kind: str | None = None) -> dict:
             target=rng.randrange(64) if rng.random() < 0.6 else None, whole=rng.random() < 0.3,
             order=rng.choice(["fwd", "fwd", "rev"]),
         )
+        if inval:
+            op["invalid"] = "two_frames"
     elif kind in ("undo", "redo"):
         pass
     elif kind in ("enable", "disable"):
@@ -189,7 +192,9 @@ def gen_op(rng: random.Random, cfg: dict, kind: str | None = None) -> dict:
             op["with_pos"] = rng.random() < 0.5
         if kind in ("export",) and op["fmt"].startswith("geff"):
             op["overwrite"] = rng.random() < 0.3
-        if cfg.get("f2", 0) and rng.random() < cfg["f2"]:
+        if cfg.get("sweep", 0) and kind in ("export", "save") and rng.random() < cfg["sweep"]:
+            op["sweep"] = True
+        elif cfg.get("f2", 0) and rng.random() < cfg["f2"]:
             op["fault"] = {"kind": rng.choice(["open", "write", "write", "mkdir", "replace", "read"]), "k": rng.randrange(400), "side": rng.choice(["w", "w", "r"])}
     return op
 
